@@ -182,6 +182,10 @@ type byte = z
 
 val zlen : 'a1 list -> z
 
+val put_u32 : z -> byte list
+
+val put_u64 : z -> byte list
+
 val get_u32 : byte list -> (z * byte list) option
 
 val get_u64 : byte list -> (z * byte list) option
@@ -432,7 +436,7 @@ val pure : 'a2 res -> ('a1, 'a2) p
 
 val alloc : z -> z -> ('a1, bool) p
 
-val iter_pos : positive -> ('a2 -> ('a1, 'a2) p) -> 'a2 -> ('a1, 'a2) p
+val iter_p : positive -> ('a2 -> ('a1, 'a2) p) -> 'a2 -> ('a1, 'a2) p
 
 val iter_n : z -> ('a2 -> ('a1, 'a2) p) -> 'a2 -> ('a1, 'a2) p
 
@@ -521,7 +525,7 @@ val norm_chunk : z -> z
 
 val c_init : z -> byte list -> cst
 
-val acct0 : z -> acct
+val acct0 : acct
 
 val read_header : z -> z -> byte list -> opened res * (cst * acct)
 
@@ -535,7 +539,7 @@ val f_gskip : z -> byte list -> byte list
 
 val fsrc : byte list src
 
-val read_header_flat : z -> z -> byte list -> opened res * (byte list * acct)
+val read_header_flat : z -> byte list -> opened res * (byte list * acct)
 
 val hdf5_probe : nat -> byte list -> z -> bool
 
@@ -546,7 +550,7 @@ type outcome = { out_res : opened res; out_fetches : z; out_offset :
 
 val open_model : z -> z -> byte list -> outcome
 
-val open_flat : z -> z -> byte list -> opened res
+val open_flat : z -> byte list -> opened res
 
 val att_req : att -> z
 
@@ -567,3 +571,39 @@ val c04_valid : z -> decoded -> bool
 val expected_open : decoded -> opened
 
 val consistent : opened -> bool
+
+val u32 : z -> byte list
+
+val u64 : z -> byte list
+
+val nm1 : z -> byte list
+
+val nm5 : z -> byte list
+
+val absent1 : byte list
+
+val absent5 : byte list
+
+val w_rndup_int : byte list
+
+val w_attr_null : byte list
+
+val w_attrV_mul : byte list
+
+val w_attr_xlen : byte list
+
+val w_shape_product : byte list
+
+val w_var_calloc : byte list
+
+val w_check_vlen : byte list
+
+val w_begin_len : byte list
+
+val w_numrecs_neg : byte list
+
+val w_dim_neg : byte list
+
+val w_alloc_dims : byte list
+
+val w_read_zeros : byte list
